@@ -32,6 +32,7 @@ type ACfg struct {
 	EnableChange bool             `json:"enableChange"`
 	Activation   int64            `json:"activation"`
 	Issued       []string         `json:"issued"`
+	Dup          []string         `json:"dup"`
 	Trace        int              `json:"trace"`
 	Profile      string           `json:"profile"`
 }
@@ -173,7 +174,7 @@ func (t *Tracer) Write(l *ALine, concrete interface{}) error {
 func (p *Proj) CfgOf(issued [][]byte, trace int, profile string) *ACfg {
 	w := p.W
 	c := &ACfg{NShards: w.Cfg.NShards, S1: p.Scale.Cmp(big.NewInt(1)) == 0, Scale: p.Scale.String(), Addrs: map[string]AAddr{}, EnableChange: w.Cfg.EnableChange,
-		Activation: int64(w.Cfg.Activation), Issued: []string{}, Trace: trace, Profile: profile}
+		Activation: int64(w.Cfg.Activation), Issued: []string{}, Dup: []string{}, Trace: trace, Profile: profile}
 	for _, a := range w.Addrs {
 		c.Addrs[a.Name] = AAddr{Hex: hx(a.Bytes), Kind: a.Kind, Shard: w.HomeShard(a.Bytes), SC: IsContract(a.Bytes), Meta: IsMetaAddress(a.Bytes), Len: len(a.Bytes), DNS: a.DNS}
 	}
